@@ -11,7 +11,7 @@ From V Require Import Common.Base.
 Require V.JpegLS.JlsParams V.JpegLS.JlsGolomb V.JpegLS.JlsModel V.JpegLS.JlsProofsGolomb V.JpegLS.JlsProofsWriter
   V.JpegLS.JlsProofsNear0 V.JpegLS.JlsProofsInterrupt V.JpegLS.JlsProofsScan V.JpegLS.JlsProofsStream.
 From V Require Import Framing.FrmBase Framing.FrmJpeg Framing.FrmJls Framing.FrmWriters
-  Framing.FrmProofsSeg Framing.FrmProofsHdr.
+  Framing.FrmProofsSeg Framing.FrmProofsHdr Framing.FrmProofsFrame.
 
 Module M := V.JpegLS.JlsModel.
 Module G := V.JpegLS.JlsGolomb.
@@ -41,3 +41,288 @@ Qed.
 Theorem jls_scan_clean : forall scan rst r pos e, PG.jls_marker_free scan = true ->
   jls_scan rst (scan ++ 255 :: 217 :: r) pos e = WOk (255 :: 217 :: r, pos + zlen scan).
 Proof. intros. apply (jls_scan_clean_n (length scan)); [lia | assumption]. Qed.
+
+(* ---------- the encoder's header writers are WriteSegment of the FrmWriters payloads ---------- *)
+
+Lemma wrap_land_255 : forall x, wrapU 8 (Z.land x 255) = byte_of x.
+Proof.
+  intros x. unfold byte_of, wrapU. change 255 with (Z.ones 8). rewrite Z.land_ones by lia.
+  apply Z.mod_mod. change (2 ^ 8) with 256. lia.
+Qed.
+
+Lemma write_sof55_segment : forall w h comps bd, comps = 1 \/ comps = 3 ->
+  M.write_sof55 w h comps bd = write_segment (65280 + 247) (lossless_sof3 bd h w comps).
+Proof.
+  intros w h comps bd [-> | ->].
+  - change (write_segment (65280 + 247) (lossless_sof3 bd h w 1))
+      with [255; 247; 0; 11; byte_of bd; byte_of (Z.shiftr h 8); byte_of h;
+            byte_of (Z.shiftr w 8); byte_of w; 1; 1; 17; 0].
+    rewrite V.JpegLS.JlsProofsStream.sof55_1. rewrite !wrap_land_255. reflexivity.
+  - change (write_segment (65280 + 247) (lossless_sof3 bd h w 3))
+      with [255; 247; 0; 17; byte_of bd; byte_of (Z.shiftr h 8); byte_of h;
+            byte_of (Z.shiftr w 8); byte_of w; 3; 1; 17; 0; 2; 17; 0; 3; 17; 0].
+    rewrite V.JpegLS.JlsProofsStream.sof55_3. rewrite !wrap_land_255. reflexivity.
+Qed.
+
+Lemma write_sos_segment : forall comps near, comps = 1 \/ comps = 3 ->
+  M.write_sos comps near = write_segment (65280 + 218) (jls_sos comps near).
+Proof. intros comps near [-> | ->]; reflexivity. Qed.
+
+(* ---------- one step of the walker per marker ---------- *)
+
+Lemma lloop_unfold : forall fu st l pos a m r, l = a :: m :: r ->
+  jls_loop (S fu) st l pos =
+    if negb (a =? 255) then WBad RExpectedMarker pos
+    else if m =? 217 then jls_finish st pos r
+    else if (m =? 247) || (m =? 248) || (m =? 218) || (m =? 221)
+            || ((224 <=? m) && (m <=? 239)) || (m =? 254) then
+      match read_segment l with
+      | SegBad rs rel => WBad rs (pos + rel)
+      | SegOk _ p rest =>
+        let pos' := pos + 4 + zlen p in
+        if m =? 247 then
+          match lt_frame st with
+          | Some _ => WBad RSofDup pos
+          | None =>
+            match parse_sof55 p with
+            | WBad rs _ => WBad rs pos
+            | WOk f => jls_loop fu (lt_with_frame st f) rest pos'
+            end
+          end
+        else if m =? 248 then
+          match parse_lse st p with
+          | WBad rs _ => WBad rs pos
+          | WOk st' => jls_loop fu st' rest pos'
+          end
+        else if m =? 221 then
+          match dri_value p with
+          | Some ri => jls_loop fu (lt_with_ri st ri) rest pos'
+          | None => WBad RDriSyntax pos
+          end
+        else if m =? 218 then
+          match lt_frame st with
+          | None => WBad RSosBeforeSof pos
+          | Some f =>
+            match parse_lsos p with
+            | WBad rs _ => WBad rs pos
+            | WOk s =>
+              match check_lsos st f s with
+              | WBad rs _ => WBad rs pos
+              | WOk _ =>
+                match jls_scan (negb (lt_ri st =? 0)) rest pos' 0 with
+                | WBad rs q => WBad rs q
+                | WOk (rest', pos'') => jls_loop fu (lt_with_scan st s) rest' pos''
+                end
+              end
+            end
+          end
+        else jls_loop fu st rest pos'
+      end
+    else WBad RBadMarker pos.
+Proof. intros; subst; reflexivity. Qed.
+
+Lemma lloop_sof55 : forall fu st data rest pos f, zlen data + 2 < 65536 ->
+  lt_frame st = None -> parse_sof55 data = WOk f ->
+  jls_loop (S fu) st (write_segment (65280 + 247) data ++ rest) pos
+  = jls_loop fu (lt_with_frame st f) rest (pos + 4 + zlen data).
+Proof.
+  intros fu st data rest pos f Hl Hf Hp. erewrite lloop_unfold by (apply seg_shape; lia).
+  rewrite segment_length by lia. cbv beta iota zeta. rewrite Hf, Hp. reflexivity.
+Qed.
+
+Lemma lloop_sos : forall fu st data rest pos f s rest' pos'', zlen data + 2 < 65536 ->
+  lt_frame st = Some f -> parse_lsos data = WOk s -> check_lsos st f s = WOk tt ->
+  jls_scan (negb (lt_ri st =? 0)) rest (pos + 4 + zlen data) 0 = WOk (rest', pos'') ->
+  jls_loop (S fu) st (write_segment (65280 + 218) data ++ rest) pos
+  = jls_loop fu (lt_with_scan st s) rest' pos''.
+Proof.
+  intros fu st data rest pos f s rest' pos'' Hl Hf Hp Hc He.
+  erewrite lloop_unfold by (apply seg_shape; lia).
+  rewrite segment_length by lia. cbv beta iota zeta. rewrite Hf, Hp, Hc, He. reflexivity.
+Qed.
+
+Lemma lloop_eoi : forall fu st r pos, jls_loop (S fu) st (255 :: 217 :: r) pos = jls_finish st pos r.
+Proof. intros. erewrite lloop_unfold by reflexivity. reflexivity. Qed.
+
+(* ---------- what the walker reports ---------- *)
+
+Definition jls_scan_header (comps near : Z) : lscan :=
+  {| ls_comps := if comps =? 1 then [(1, 0)] else [(1, 0); (2, 0); (3, 0)];
+     ls_near := near; ls_ilv := if comps =? 1 then 0 else 2; ls_al := 0; ls_ah := 0 |}.
+
+(* the header of a frame of w x h samples, comps components (ids 1.., H = V = 1), precision bd,
+   one scan over all components with NEAR = near (sample interleaved when comps = 3), no LSE,
+   no restart interval *)
+Definition jls_declared (w h comps bd near : Z) : jls_header :=
+  {| lh_p := bd; lh_y := h; lh_x := w; lh_nf := comps; lh_comps := seq_comps comps;
+     lh_scans := [jls_scan_header comps near]; lh_preset := None; lh_ri := 0 |}.
+
+Definition jls_frame_of (w h comps bd : Z) : jframe :=
+  {| jf_sof := 3; jf_p := bd; jf_y := h; jf_x := w; jf_nf := comps; jf_comps := seq_comps comps |}.
+
+Lemma check_lsos_ok : forall w h comps bd near,
+  2 <= bd <= 16 -> comps = 1 \/ comps = 3 -> 0 <= near <= V.JpegLS.JlsParams.near_max bd ->
+  check_lsos (lt_with_frame lt_init (jls_frame_of w h comps bd)) (jls_frame_of w h comps bd)
+             (jls_scan_header comps near) = WOk tt.
+Proof.
+  intros w h comps bd near Hbd Hc Hn. unfold V.JpegLS.JlsParams.near_max in Hn.
+  unfold check_lsos, jls_frame_of, jls_scan_header, seq_comps, maxval_of.
+  cbn [lt_with_frame lt_init lt_preset lt_maps lt_done jf_nf jf_comps jf_p ls_comps ls_near ls_ilv ls_al ls_ah
+       preset_ok].
+  destruct (Z.leb_spec near (Z.min 255 ((2 ^ bd - 1) / 2))) as [_|Hx]; [|lia].
+  destruct (Z.ltb_spec 0 bd) as [_|Hx]; [|lia].
+  destruct Hc as [-> | ->]; reflexivity.
+Qed.
+
+(* walk_frame: SOI, SOF55, SOS, any marker-free scan, EOI is one well-formed T.87 codestream and
+   the walker reports exactly the arguments *)
+Theorem walk_frame : forall w h comps bd near scan,
+  dims16 h w -> 2 <= bd <= 16 -> comps = 1 \/ comps = 3 ->
+  0 <= near <= V.JpegLS.JlsParams.near_max bd ->
+  PG.jls_marker_free scan = true ->
+  jls_walk ([255; 216] ++ M.write_sof55 w h comps bd ++ M.write_sos comps near ++ scan ++ [255; 217])
+  = WOk (jls_declared w h comps bd near).
+Proof.
+  intros w h comps bd near scan Hd Hbd Hc Hn Hmf.
+  assert (Hn255 : 0 <= near < 256) by (unfold V.JpegLS.JlsParams.near_max in Hn; lia).
+  rewrite write_sof55_segment, write_sos_segment by assumption.
+  unfold jls_walk. cbn [app].
+  change ((255 =? 255) && (216 =? 216)) with true. cbv iota.
+  remember (length _) as n eqn:Hlen.
+  assert (Hfuel : exists k, n = S (S (S k))).
+  { subst n. cbn [length]. unfold write_segment at 1. rewrite !app_length. cbn [length write_marker write_u16].
+    eexists. rewrite <- !plus_n_Sm. reflexivity. }
+  destruct Hfuel as [k ->]. clear Hlen.
+  erewrite lloop_sof55;
+    [ | rewrite zlen_sof3 by assumption; lia | reflexivity
+      | apply jls_header_roundtrip; assumption ].
+  erewrite lloop_sos;
+    [ | destruct Hc as [-> | ->]; vm_compute; reflexivity
+      | reflexivity
+      | apply jls_sos_roundtrip; assumption
+      | apply (check_lsos_ok w h comps bd near); assumption
+      | cbn [lt_with_frame lt_init lt_ri]; change (negb (0 =? 0)) with false;
+        apply jls_scan_clean; exact Hmf ].
+  rewrite lloop_eoi. unfold jls_finish, jls_declared, jls_scan_header, seq_comps.
+  cbn [lt_with_scan lt_with_frame lt_init lt_frame lt_scans lt_done lt_preset lt_ri ls_comps jf_comps
+       jf_p jf_y jf_x jf_nf].
+  destruct Hc as [-> | ->]; reflexivity.
+Qed.
+
+(* nothing may follow the end marker *)
+Theorem walk_frame_trailing : forall w h comps bd near scan b t,
+  dims16 h w -> 2 <= bd <= 16 -> comps = 1 \/ comps = 3 ->
+  0 <= near <= V.JpegLS.JlsParams.near_max bd ->
+  PG.jls_marker_free scan = true ->
+  exists pos,
+  jls_walk (([255; 216] ++ M.write_sof55 w h comps bd ++ M.write_sos comps near ++ scan ++ [255; 217]) ++ b :: t)
+  = WBad RTrailing pos.
+Proof.
+  intros w h comps bd near scan b t Hd Hbd Hc Hn Hmf.
+  assert (Hn255 : 0 <= near < 256) by (unfold V.JpegLS.JlsParams.near_max in Hn; lia).
+  rewrite write_sof55_segment, write_sos_segment by assumption.
+  unfold jls_walk. rewrite <- !app_assoc. cbn [app].
+  change ((255 =? 255) && (216 =? 216)) with true. cbv iota.
+  remember (length _) as n eqn:Hlen.
+  assert (Hfuel : exists k, n = S (S (S k))).
+  { subst n. cbn [length]. unfold write_segment at 1. rewrite !app_length. cbn [length write_marker write_u16].
+    eexists. rewrite <- !plus_n_Sm. reflexivity. }
+  destruct Hfuel as [k ->]. clear Hlen.
+  erewrite lloop_sof55;
+    [ | rewrite zlen_sof3 by assumption; lia | reflexivity
+      | apply jls_header_roundtrip; assumption ].
+  erewrite lloop_sos;
+    [ | destruct Hc as [-> | ->]; vm_compute; reflexivity
+      | reflexivity
+      | apply jls_sos_roundtrip; assumption
+      | apply (check_lsos_ok w h comps bd near); assumption
+      | cbn [lt_with_frame lt_init lt_ri]; change (negb (0 =? 0)) with false;
+        apply jls_scan_clean; exact Hmf ].
+  rewrite lloop_eoi. unfold jls_finish, jls_scan_header, seq_comps.
+  cbn [lt_with_scan lt_with_frame lt_init lt_frame lt_scans lt_done lt_preset lt_ri ls_comps jf_comps
+       jf_p jf_y jf_x jf_nf].
+  eexists. destruct Hc as [-> | ->]; reflexivity.
+Qed.
+
+(* ---------- the encoders ---------- *)
+
+(* the scan bytes of any encoder call are marker free *)
+Lemma encoder_scan_clean : forall pk w h comps bd near pixels ops,
+  2 <= bd <= 16 -> 0 <= near <= V.JpegLS.JlsParams.near_max bd ->
+  V.JpegLS.JlsProofsInterrupt.pk_ok pk near ->
+  0 <= w -> 0 <= h -> comps = 1 \/ comps = 3 ->
+  Forall (V.JpegLS.JlsProofsNear0.in_range bd) pixels -> zlen pixels = w * h * comps ->
+  M.encode_scan_ops pk (V.JpegLS.JlsParams.jls_params bd near) w h comps pixels = Ok ops ->
+  PG.jls_marker_free (G.gw_run ops) = true.
+Proof.
+  intros pk w h comps bd near pixels ops Hbd Hn Hpk Hw Hh Hc Hr Hl He.
+  destruct (V.JpegLS.JlsProofsScan.scan_lockstep bd near pk w h comps pixels ops Hbd Hn Hpk Hw Hh Hc Hr Hl He)
+    as (recon & _ & _ & Hwf & _).
+  rewrite (V.JpegLS.JlsProofsWriter.gw_run_pack ops Hwf).
+  exact (proj1 (PG.jls_no_marker _)).
+Qed.
+
+Theorem encode_image_wellformed : forall pk w h comps bd near pixelData bytes,
+  near <= V.JpegLS.JlsParams.near_max bd ->
+  (pk = M.PkLossless -> near = 0) ->
+  zlen (M.pixelsToIntegers bd pixelData) = w * h * comps ->
+  Forall (V.JpegLS.JlsProofsNear0.in_range bd) (M.pixelsToIntegers bd pixelData) ->
+  M.encode_image pk w h comps bd near pixelData = Ok bytes ->
+  jls_walk bytes = WOk (jls_declared w h comps bd near) /\
+  (forall b t, exists pos, jls_walk (bytes ++ b :: t) = WBad RTrailing pos).
+Proof.
+  intros pk w h comps bd near px bytes Hnm Hpk0 Hlen Hr Henc.
+  destruct (V.JpegLS.JlsProofsStream.encode_image_ok _ _ _ _ _ _ _ _ Henc)
+    as (Hw1 & Hh1 & Hc & HP & Hnr & ops & Hops & Hs).
+  assert (Hn0 : 0 <= near).
+  { destruct pk; [rewrite Hpk0 by reflexivity; lia | specialize (Hnr eq_refl); lia]. }
+  assert (Hpk : V.JpegLS.JlsProofsInterrupt.pk_ok pk near).
+  { destruct pk; [apply Hpk0; reflexivity | exact I]. }
+  assert (Hmf : PG.jls_marker_free (G.gw_run ops) = true).
+  { apply (encoder_scan_clean pk w h comps bd near (M.pixelsToIntegers bd px) ops); try assumption; lia. }
+  subst bytes. split.
+  - apply walk_frame; try assumption; [split; lia | lia].
+  - intros b t. apply walk_frame_trailing; try assumption; [split; lia | lia].
+Qed.
+
+(* jls_frame_wellformed: every frame the lossless encoder emits *)
+Theorem jls_frame_wellformed : forall w h comps bd pixelData bytes,
+  zlen (M.pixelsToIntegers bd pixelData) = w * h * comps ->
+  Forall (V.JpegLS.JlsProofsNear0.in_range bd) (M.pixelsToIntegers bd pixelData) ->
+  M.jls_encode w h comps bd pixelData = Ok bytes ->
+  jls_wellformed bytes = Some (jls_declared w h comps bd 0) /\
+  (forall b t, jls_wellformed (bytes ++ b :: t) = None).
+Proof.
+  intros w h comps bd px bytes Hlen Hr Henc. unfold M.jls_encode in Henc.
+  destruct (V.JpegLS.JlsProofsStream.encode_image_ok _ _ _ _ _ _ _ _ Henc) as (_ & _ & _ & HP & _).
+  assert (Hn : 0 <= V.JpegLS.JlsParams.near_max bd).
+  { unfold V.JpegLS.JlsParams.near_max. pose proof (V.JpegLS.JlsProofsSample.pow2_bounds bd HP).
+    assert (0 <= (2 ^ bd - 1) / 2) by (apply Z.div_pos; lia). lia. }
+  destruct (encode_image_wellformed M.PkLossless w h comps bd 0 px bytes Hn (fun _ => eq_refl) Hlen Hr Henc)
+    as [Hw Ht].
+  unfold jls_wellformed. rewrite Hw. split; [reflexivity|].
+  intros b t. destruct (Ht b t) as [pos Hp]. rewrite Hp. reflexivity.
+Qed.
+
+(* jlsn_frame_wellformed: every frame the near-lossless encoder emits with NEAR <= min(255, MAXVAL/2) *)
+Theorem jlsn_frame_wellformed : forall w h comps bd near pixelData bytes,
+  near <= V.JpegLS.JlsParams.near_max bd ->
+  zlen (M.pixelsToIntegers bd pixelData) = w * h * comps ->
+  Forall (V.JpegLS.JlsProofsNear0.in_range bd) (M.pixelsToIntegers bd pixelData) ->
+  M.jlsn_encode w h comps bd near pixelData = Ok bytes ->
+  jls_wellformed bytes = Some (jls_declared w h comps bd near) /\
+  (forall b t, jls_wellformed (bytes ++ b :: t) = None).
+Proof.
+  intros w h comps bd near px bytes Hn Hlen Hr Henc. unfold M.jlsn_encode in Henc.
+  destruct (encode_image_wellformed M.PkNear w h comps bd near px bytes Hn
+              (fun E => ltac:(discriminate E)) Hlen Hr Henc) as [Hw Ht].
+  unfold jls_wellformed. rewrite Hw. split; [reflexivity|].
+  intros b t. destruct (Ht b t) as [pos Hp]. rewrite Hp. reflexivity.
+Qed.
+
+(* The hypothesis NEAR <= MAXVAL/2 is necessary: nearlossless.Encode accepts every NEAR in 0..255
+   whatever the precision (finding F33) and writes it into the scan header; T.87 C.2.3 allows
+   NEAR <= min(255, MAXVAL/2) only, so the strict walker rejects the frame. *)
+Theorem jlsn_frame_near_above_half_rejected :
+  exists bytes, M.jlsn_encode 2 1 1 2 2 [0; 3] = Ok bytes /\ jls_walk bytes = WBad RJlsNear 15.
+Proof. eexists. split; vm_compute; reflexivity. Qed.
